@@ -371,3 +371,121 @@ Definition op_ok (s : ledger) (o : op) : bool :=
 
 (* persisted component (what a reopened wallet reads back) *)
 Definition persisted (s : ledger) : list key * list tx := (l_keys s, l_txs s).
+
+(* ---------------------------------------------------------------- the database file: several wallets, session and file
+   One sqlite file holds the rows of several wallets (DbTransaction.wallet_id, DbKey.wallet_id).  A Wallet object
+   works through its own session: [wl_live] is what that session sees (its rows, pending changes included, and the
+   in-memory Wallet._balances), [wl_disk] the committed rows of the wallet, i.e. what a second Wallet object opened
+   on the file, another process, or the same wallet after close + reopen reads.  An operation changes the live
+   component and ends in a commit (disk := persisted live) or not; closing the session drops what is pending.
+
+   The variant record selects the code variant:
+     v_repaired, v_strict  as for [step_gen];
+     v_del_commits         WalletTransaction.delete() ends in a commit (the code: yes);
+     v_mark_all            send() looks the consumed outputs up by (txid, output_n) only, so the records of EVERY
+                           wallet in the file are marked spent (the code: yes);
+     v_del_own             delete() looks up the transaction row of its own wallet (fixes/C08-8); the code before it
+                           looks the row up by txid only and raises when another wallet holds the same txid. *)
+Record variant := mkVar { v_repaired : bool; v_strict : bool; v_del_commits : bool; v_mark_all : bool;
+                          v_del_own : bool }.
+Definition lib_variant : variant := mkVar true true true true false.
+Definition own_variant : variant := mkVar true true true true true.
+
+Record wal := mkWal { wl_id : Z; wl_live : ledger; wl_disk : list key * list tx }.
+Definition dbase := list wal.
+
+(* what a fresh Wallet object on the file starts from *)
+Definition open_disk (w : wal) : ledger :=
+  mkL (fst (wl_disk w)) (snd (wl_disk w)) [] (l_default (wl_live w)) (l_bip32 (wl_live w)).
+
+Definition find_wal (D : dbase) (wid : Z) : option wal := find (fun w => wl_id w =? wid) D.
+
+Definition db_create (D : dbase) (wid : Z) (d : grp) (bip32 : bool) : dbase :=
+  D ++ [mkWal wid (init d bip32) ([], [])].
+
+(* operations whose code path ends in session.commit() *)
+Definition commits (v : variant) (o : op) : bool :=
+  match o with
+  | Delete _ => v_del_commits v
+  | Select _ _ _ => false
+  | Utxos => false
+  | UtxosOf _ _ => false
+  | Reopen => false
+  | _ => true
+  end.
+
+(* send() of another wallet: the consumed outpoints are marked in this wallet's rows too *)
+Definition mark_wal (ins : list inp) (w : wal) : wal :=
+  mkWal (wl_id w) (with_txs (wl_live w) (mark_spent ins (l_txs (wl_live w))))
+        (fst (wl_disk w), mark_spent ins (snd (wl_disk w))).
+
+(* an unspent output of the list is consumed by the inputs *)
+Definition unspent_consumed (ins : list inp) (txs : list tx) : bool :=
+  existsb (fun t => existsb (fun o => negb (o_spent o) && consumed ins (t_txid t) (o_n o)) (t_outs t)) txs.
+
+(* class predicate: the operation on wallet wid reaches into the rows of another wallet *)
+Definition touches_others (v : variant) (D : dbase) (wid : Z) (o : op) : bool :=
+  match o with
+  | Store true d =>
+      v_mark_all v &&
+      existsb (fun x => negb (wl_id x =? wid) &&
+                        (unspent_consumed (d_ins d) (l_txs (wl_live x)) || unspent_consumed (d_ins d) (snd (wl_disk x)))) D
+  | _ => false
+  end.
+
+(* delete() finds two transaction rows with the txid (its own and another wallet's) and raises *)
+Definition delete_blocked (v : variant) (D : dbase) (wid : Z) (o : op) : bool :=
+  match o with
+  | Delete txid =>
+      negb (v_del_own v) &&
+      existsb (fun x => negb (wl_id x =? wid) && has_tx (snd (wl_disk x)) txid) D
+  | _ => false
+  end.
+
+Inductive dbout :=
+| DOut (o : out)
+| DRefused
+| DNoWallet.
+
+Definition db_step_gen (v : variant) (D : dbase) (wid : Z) (o : op) : dbase * dbout :=
+  match find_wal D wid with
+  | None => (D, DNoWallet)
+  | Some w =>
+      if delete_blocked v D wid o && (match o with Delete txid => has_tx (l_txs (wl_live w)) txid | _ => false end)
+      then (D, DRefused)
+      else
+        let live0 := match o with Reopen => open_disk w | _ => wl_live w end in
+        let r := step_gen (v_repaired v) (v_strict v) live0 o in
+        let w' := mkWal wid (fst r) (if commits v o then persisted (fst r) else wl_disk w) in
+        let D1 := map (fun x => if wl_id x =? wid then w' else x) D in
+        let D2 := match o with
+                  | Store true d =>
+                      if v_mark_all v
+                      then map (fun x => if wl_id x =? wid then x else mark_wal (d_ins d) x) D1
+                      else D1
+                  | _ => D1
+                  end in
+        (D2, DOut (snd r))
+  end.
+
+Definition db_step := db_step_gen lib_variant.
+
+(* the precondition of the operation, in the wallet it is applied to *)
+Definition db_op_ok (D : dbase) (wid : Z) (o : op) : bool :=
+  match find_wal D wid with
+  | Some w => op_ok (match o with Reopen => open_disk w | _ => wl_live w end) o
+  | None => false
+  end.
+
+(* histories over the file *)
+Inductive dbop :=
+| DCreate (wid : Z) (d : grp) (bip32 : bool)
+| DOp (wid : Z) (o : op).
+
+Definition db_apply (v : variant) (D : dbase) (x : dbop) : dbase :=
+  match x with
+  | DCreate wid d b => db_create D wid d b
+  | DOp wid o => fst (db_step_gen v D wid o)
+  end.
+
+Definition db_run (v : variant) (D : dbase) (xs : list dbop) : dbase := fold_left (db_apply v) xs D.
